@@ -296,7 +296,7 @@ func ruleC20ExternalOnlyViaCache(c *Ctx) {
 		})
 	}
 	c.CallSites += nm + nk
-	c.check(nm >= 6 && nk >= 2, "appencryption/external-call-sites", "", fmt.Sprintf("%d Metastore and %d KMS call sites in the SDK core", nm, nk), fmt.Sprintf("expected at least 6 Metastore and 2 KMS call sites in the SDK core, found %d/%d (anchors moved?)", nm, nk))
+	c.check(nm >= 3 && nk >= 2, "appencryption/external-call-sites", "", fmt.Sprintf("%d Metastore and %d KMS call sites in the SDK core", nm, nk), fmt.Sprintf("expected at least 3 Metastore and 2 KMS call sites in the SDK core, found %d/%d (anchors moved?)", nm, nk))
 }
 
 func ruleC20FactoryWideSKCache(c *Ctx) {
